@@ -234,6 +234,28 @@ theorem select_none_iff (lib : List (AmpSpec ℝ)) (ok : Bool) (g p e : ℝ) :
 theorem argminNf_first (l : List (Cand ℝ)) (c : Cand ℝ) (h : argminNf l = some c) :
     c ∈ l ∧ ∀ x ∈ l, nfLt x.nf c.nf = false := argminNf_spec l c h
 
+/-- **Raman only after a fibre whose every loss entry is below the limit** (per-frequency loss tables): with the
+`raman_allowed` flag the code computes from the previous node, a Raman model can only be chosen when that node
+is a fibre and ALL entries of its loss-coefficient table are below `max_fiber_lineic_loss_for_raman` -/
+theorem raman_only_after_low_loss_fibre (lib : List (AmpSpec ℝ)) (isFiber : Bool) (loss : List ℝ) (limit g p e : ℝ)
+    (ch : Choice ℝ) (h : selectEdfa lib (ramanAllowed isFiber loss limit) g p e = some ch) :
+    ∃ a ∈ lib, a.name = ch.variety ∧
+      (a.raman = true → isFiber = true ∧ ∀ l ∈ loss, l < limit * (1 / 1000)) := by
+  obtain ⟨a, ha, hn, hr, _⟩ := selected_mem_permitted lib _ g p e ch h
+  refine ⟨a, ha, hn, ?_⟩
+  intro hra
+  rcases hr with hr | hr
+  · rw [hr] at hra; cases hra
+  · exact (ramanAllowed_spec isFiber loss limit).1 hr
+
+/-- one entry of the table at or above the limit is enough to forbid Raman (a table straddling the limit) -/
+theorem ramanAllowed_table_straddling (isFiber : Bool) (loss : List ℝ) (limit x : ℝ) (hx : x ∈ loss)
+    (hge : limit * (1 / 1000) ≤ x) : ramanAllowed isFiber loss limit = false := by
+  by_contra hne
+  have ht : ramanAllowed isFiber loss limit = true := by simpa using hne
+  have := ((ramanAllowed_spec isFiber loss limit).1 ht).2 x hx
+  linarith
+
 /-! ### gain fall-back, multiband permitted set, and the statement in one piece -/
 
 /-- when no candidate reaches its minimum gain (3 dB allowance for EDFAs, none for Raman) the non-Raman models
